@@ -25,7 +25,7 @@ func init() {
 			"a bar with zero TimeSig inherits the previous bar's signature at AddBar time (documented behaviour of AddBar)",
 			"per-track assignment in ToSMF1 (events of track number n on the n-th used track) is read as part of 'multi-track export'",
 		},
-		Require: []string{"songs", "bars_num_ge_8", "sig_changes", "notes_with_duration", "smf1_tracks", "compound_meters"},
+		Require: []string{"songs", "bars_num_ge_8", "sig_changes", "notes_with_duration", "smf1_tracks", "compound_meters", "in_place_edits_between_exports"},
 		Run:     runC20,
 	})
 }
@@ -106,7 +106,12 @@ func (s *c20Song) describe() map[string]any {
 	return map[string]any{"resolution": s.res, "bar_signatures": fmt.Sprint(s.sigs), "events": ev}
 }
 
-func checkSong(c *mon.Ctx, s *c20Song) {
+func checkSong(c *mon.Ctx, s *c20Song) { checkSongEdited(c, s, -1, [2]uint8{}) }
+
+// checkSongEdited builds the song; if editBar >= 0 it first builds and exports the song with the
+// original signatures, then changes the signature of that bar IN PLACE through Song.Bars() and
+// exports again: the second export must follow the edited song (no stale layout).
+func checkSongEdited(c *mon.Ctx, s *c20Song, editBar int, newSig [2]uint8) {
 	song := sequencer.New()
 	song.Ticks = smf.MetricTicks(s.res)
 	song.Title = "t"
@@ -122,6 +127,31 @@ func checkSong(c *mon.Ctx, s *c20Song) {
 			b.Events = append(b.Events, &sequencer.Event{TrackNo: e.track, Pos: e.pos, Duration: e.dur, Message: smf.Message(e.msg)})
 		}
 		song.AddBar(b)
+	}
+
+	if editBar >= 0 {
+		c.Guard("panic:first-export", s.describe(), func() {
+			if editBar%2 == 0 {
+				song.ToSMF0()
+			} else {
+				song.ToSMF1()
+				song.ToSMF0()
+			}
+		})
+		// the reference below is computed for the edited song
+		orig := append([][2]uint8(nil), s.sigs...)
+		// inherited signatures were resolved by AddBar: make them explicit in the model first
+		cur := [2]uint8{4, 4}
+		for i := range orig {
+			if orig[i] != [2]uint8{0, 0} {
+				cur = orig[i]
+			}
+			orig[i] = cur
+		}
+		orig[editBar] = newSig
+		s = &c20Song{res: s.res, sigs: orig, evs: s.evs}
+		song.Bars()[editBar].TimeSig = newSig
+		c.Count("in_place_edits_between_exports", 1)
 	}
 
 	// ---- reference: int64 bar arithmetic
@@ -320,6 +350,27 @@ func runC20(c *mon.Ctx) {
 		}
 	})
 	c.MarkExhaustive("all ordered pairs of the legal (numerator 1..24, denominator 1..32) signatures as consecutive bars")
+
+	// state carried across exports: export, edit one bar's signature in place, export again
+	c.Each("edit-between-exports", c.N(2000, 200_000), func(i int64, r *mon.Rand) {
+		nb := r.Range(2, 12)
+		s := &c20Song{res: uint16(8 * r.Range(1, 400))}
+		for k := 0; k < nb; k++ {
+			if r.P(1, 2) {
+				s.sigs = append(s.sigs, [2]uint8{0, 0})
+			} else {
+				s.sigs = append(s.sigs, sigs[r.Intn(len(sigs))])
+			}
+		}
+		// events only at position 0 without duration, so that they stay inside any edited bar
+		for k := 0; k < nb; k++ {
+			if r.P(1, 2) {
+				s.evs = append(s.evs, c20Event{bar: k, track: r.Intn(3), pos: 0, dur: 0, msg: []byte{0xB0 | byte(k&15), byte(k), 1}})
+			}
+		}
+		hashSong(c, s)
+		checkSongEdited(c, s, r.Intn(nb), sigs[r.Intn(len(sigs))])
+	})
 
 	c.Each("random-songs", c.N(3000, 3_000_000), func(i int64, r *mon.Rand) {
 		s := &c20Song{}
